@@ -93,6 +93,20 @@ theorem c11_json_body_messages (dec : Dec P) (id : Option Id) (r : Resp)
     have := c11_success_passthrough dec id r hs (by simpa [hcont] using hne) (by simp [hc])
     simpa [hcont] using this
 
+/-- Partial failure inside a batch: a member the message class rejects (a non-object result, a
+scalar, an object without result and error, …) at ANY position — first, middle, last, several of
+them — is skipped where it stands; every deliverable member before and after it is still delivered,
+in order.  In particular the request's own answer behind a rejected member is not lost. -/
+theorem c11_batch_invalid_member_skipped (dec : Dec P) (id : Option Id) (r : Resp) (a b : List (JVal P))
+    (hs : r.status < 400) (hc : r.ctype = .json) (hu : r.body.utf8 = true)
+    (hd : dec.json r.body.text = some (.arr (a ++ .junk :: b)))
+    (hne : routeAll (.arr a) ++ routeAll (.arr b) ≠ []) :
+    outcome dec id (.resp r) = (routeAll (.arr a) ++ routeAll (.arr b)).map .pass := by
+  have hcont : contained dec r = routeAll (.arr a) ++ routeAll (.arr b) := by
+    simp [contained, hc, hu, hd, routeAll_skip_junk]
+  have := c11_success_passthrough dec id r hs (by rw [hcont]; exact hne) (by simp [hc])
+  rw [this, hcont]
+
 /-- SSE body: in ANY conformant encoding of ANY number of events — message events, events of
 other types, data-less keep-alives, in any order — every JSON-RPC message the events carry is
 delivered, in order (`g e` = the messages event `e` carries; data-less events carry none and do
@@ -190,6 +204,7 @@ example :
     "J" a JSON value that is no message; everything else is not JSON -/
 def toyDec : Dec Nat where
   json s :=
+    if s = "M".toList then some (.arr [.msg ⟨.notification, none, 20⟩, .junk, .msg ⟨.result, some (.int 1), 10⟩]) else
     if s = "{R}".toList then some (.msg ⟨.result, some (.int 1), 10⟩)
     else if s = "{N}".toList then some (.msg ⟨.notification, none, 20⟩)
     else if s = "B".toList then some (.arr [.msg ⟨.notification, none, 20⟩, .msg ⟨.result, some (.int 1), 10⟩])
@@ -217,6 +232,9 @@ example :
     outcome toyDec (some (.int 1)) (resp 200 .sse none "event: ping\n\ndata: {R}\n\n")
       = [.pass ⟨.result, some (.int 1), 10⟩] ∧
     outcome toyDec (some (.int 1)) (resp 200 .sse none "data:{N}\r\n\r\nevent: message\ndata: {R}")
+      = [.pass ⟨.notification, none, 20⟩, .pass ⟨.result, some (.int 1), 10⟩] ∧
+    -- a batch whose middle member is rejected: the members around it are delivered
+    outcome toyDec (some (.int 1)) (resp 200 .json none "M")
       = [.pass ⟨.notification, none, 20⟩, .pass ⟨.result, some (.int 1), 10⟩] ∧
     -- notification POST: nothing with an id on failure
     outcome toyDec none (resp 500 .json none "") = [.synth none] ∧
